@@ -284,6 +284,8 @@ class RadiRouter:
         self.radidict.remove(route_pattern)
         if route:
             del self.routes[route.pattern]
+            # drop every (other) name of the removed route
+            self._remove_named_routers({route.pattern})
         else:
             if route_pattern.endswith('*'):
                 route_pattern = route_pattern[:-1]
